@@ -58,7 +58,10 @@ func (p *Forkable) AllBlocksAt(num uint64) (out []*pbbstream.Block) {
 	defer p.RUnlock()
 	for id, n := range p.forkDB.nums {
 		if n == num {
-			out = append(out, p.forkDB.objects[id].(*ForkableBlock).Block)
+			// the LIB given at initialization has a number but no block object
+			if obj, ok := p.forkDB.objects[id]; ok {
+				out = append(out, obj.(*ForkableBlock).Block)
+			}
 		}
 	}
 	return
@@ -142,7 +145,10 @@ func (p *Forkable) blocksFromNumWithForks(startNum uint64) ([]*bstream.Preproces
 	var wantedBlocks []*ForkableBlock
 	for id, num := range p.forkDB.nums {
 		if num >= startNum {
-			wantedBlocks = append(wantedBlocks, p.forkDB.objects[id].(*ForkableBlock))
+			// the LIB given at initialization has a number but no block object
+			if obj, ok := p.forkDB.objects[id]; ok {
+				wantedBlocks = append(wantedBlocks, obj.(*ForkableBlock))
+			}
 		}
 	}
 
